@@ -61,6 +61,11 @@ func c20Corpus(rng *rand.Rand, extra int) []string {
 		"DROP GRAPH ?g3;",
 		"DROP GRAPH ?g3, ?g2;",
 		"SHOW GRAPHS;",
+		"SELECT ?s, ?p, ?o FROM ?g1 WHERE { ?s ?p ?o } LIMIT \"1\"^^type:int64;",
+		"SELECT ?s, ?p, ?o FROM ?g1, ?g2 WHERE { ?s ?p ?o } LIMIT \"2\"^^type:int64;",
+		"SELECT ?s, ?o FROM ?g1 WHERE { ?s \"p\"@[] ?o } LIMIT \"1\"^^type:int64;",
+		"SELECT ?o FROM ?g2, ?g1 WHERE { /u<a> ?p ?o } LIMIT \"2\"^^type:int64;",
+		"SELECT ?s, ?o FROM ?g1 WHERE { ?s \"p\"@[] ?o } ORDER BY ?o LIMIT \"1\"^^type:int64;",
 		"CONSTRUCT { ?s \"c1\"@[] ?o } INTO ?g3 FROM ?g1 WHERE { ?s ?p ?o };",
 		"CONSTRUCT { ?s \"c1\"@[] ?o ; \"c2\"@[] ?s } INTO ?g3, ?g2 FROM ?g1 WHERE { ?s \"p\"@[] ?o };",
 		"CONSTRUCT { ?s \"c1\"@[?t] ?o } INTO ?g3 FROM ?g1, ?g2 WHERE { ?s \"p\"@[?t] ?o };",
